@@ -130,33 +130,32 @@ pub mod pyo3 {
                 ensures r.pv() == PyVal::List(Seq::<PyVal>::empty())
             { unimplemented!() }
         }
-        // list.append / list.is_empty / dict.set_item mutate the Python object behind a shared handle: the handle's ghost
-        // value is therefore modelled by an explicit ghost log kept by the caller's contract (see ListLog / DictLog)
-        #[verifier::external_body]
-        pub struct ListLog { _p: core::marker::PhantomData<u8> }
-        impl<'py> Bound<'py, PyList> {
-            // the items appended so far through this handle (interior mutability of the Python list)
-            pub uninterp spec fn items(&self) -> Seq<PyVal>;
-        }
-        // Because `append(&self, ..)` takes a shared reference, its effect on items() cannot be expressed as old/final of a
-        // &mut; the op layer's contracts are therefore stated over the SEQUENCE OF append CALLS (ghost, tracked in hints).
+        // list.append / dict.set_item mutate the Python object behind a handle. The op layer creates the list / dict, fills it
+        // and returns it without sharing the handle in between, so the object's state is modelled as the ghost value of that
+        // (unique) handle: the stand-ins take `&mut self` (the extraction makes the local binding `mut`, rule RW, listed).
         impl<'py> Bound<'py, PyList> {
             #[verifier::external_body]
-            pub fn append(&self, item: Bound<'py, PyAny>) -> (r: PyResult<()>)
+            pub fn append<T>(&mut self, item: Bound<'py, T>) -> (r: PyResult<()>)
+                // list.append can only fail on memory exhaustion (which aborts the interpreter): modelled as always succeeding
+                ensures r is Ok, old(self).pv() matches PyVal::List(l) ==> final(self).pv() == PyVal::List(l.push(item.pv())),
             { unimplemented!() }
             #[verifier::external_body]
             pub fn is_empty(&self) -> (r: bool)
+                ensures self.pv() matches PyVal::List(l) ==> r == (l.len() == 0)
             { unimplemented!() }
         }
         impl PyDict {
             #[verifier::external_body]
             pub fn new<'py>(py: Python<'py>) -> (r: Bound<'py, PyDict>)
+                ensures r.pv() == PyVal::Dict(Seq::<(PyVal, PyVal)>::empty())
             { unimplemented!() }
         }
         impl<'py> Bound<'py, PyDict> {
             #[verifier::external_body]
-            pub fn set_item<K: IntoPyObject<'py>, V: IntoPyObject<'py>>(&self, key: K, value: V) -> (r: PyResult<()>)
+            pub fn set_item<K: IntoPyObject<'py>, V: IntoPyObject<'py>>(&mut self, key: K, value: V) -> (r: PyResult<()>)
                 requires key.convertible(), value.convertible()
+                ensures r is Ok ==> (old(self).pv() matches PyVal::Dict(d) && final(self).pv() == PyVal::Dict(d.push((key.spec_py(), value.spec_py())))),
+                        r is Err ==> final(self).pv() == old(self).pv(),
             { unimplemented!() }
         }
     }
